@@ -22,7 +22,8 @@ RULE = ("Rule-based state machine over a scratch directory. Tables: 1-20 rows, a
         "values, equal units, t_ref, poly_trend, n_offsets; a refused operation leaves the SHA-256 of the file "
         "unchanged; a same-schema append must succeed and yield model ++ table; an append that changes the column set "
         "must be refused; read_batch -> model[columns][rows] x unit factor with rows exactly as requested. A history "
-        "is non-trivial when it contains an append or an overwrite followed by a read.")
+        "is non-trivial when it contains an append or an overwrite followed by a read."
+        " Also: single-precision schemas and appends of the other float width; rows without a reference epoch appended to a table that has one; extra metadata entries on refused appends; two tables per file read through groups and through filename + path; index arrays that are permuted blocks / repeats with gaps; search 'random_batch' (files of 150-20000 rows, sizes around rows/100: distinct rows).")
 SHARDS = {"quick": 4, "thorough": 16}
 BUDGET = {"quick": 80, "thorough": 800}
 
